@@ -147,8 +147,18 @@ def run_cases(tag, run_module, terms, prelude="", shard=300, timeout=900, extra_
     bad, errors = [], []
     t0 = time.time()
     with ThreadPoolExecutor(max_workers=NCPU) as ex:
-        for (k, path), (rc, out, err, _) in zip(files, ex.map(lambda kp: _run_one(kp[1], timeout), files)):
+        results = list(zip(files, ex.map(lambda kp: _run_one(kp[1], timeout), files)))
+    if True:
+        for (k, path), (rc, out, err, _) in results:
             m = _ANS.search(out)
+            tries = 0
+            while (rc is not None and rc < 0 or rc == 137) and tries < 2:
+                # the process was killed by a signal (on a loaded machine: the kernel's OOM killer): that says nothing about
+                # the cases - run the shard again, alone
+                tries += 1
+                time.sleep(5 * tries)
+                rc, out, err, _ = _run_one(path, timeout)
+                m = _ANS.search(out)
             if rc != 0 or not m:
                 errors.append("%s: rc=%s %s %s" % (os.path.basename(path), rc, out[-600:], err[-1200:]))
                 continue
